@@ -66,6 +66,9 @@ func ZZ_C01_ReadStep() {
 	off := zzConcretize(zzChoice("off", total))
 	n := zzConcretize(zzChoice("len", total-off)) + 1
 	buf := z.buf(n)
+	for i := 0; i < n; i++ {
+		z.setUnit(buf, i, 0xEE) // the destination is not assumed to be zeroed
+	}
 	got, err := d.ReadAt(buf, int64(off)*zzScale(U))
 	zzAssert(err == nil && got == len(buf), "C01.read-result")
 	for i := 0; i < n; i++ {
@@ -103,11 +106,20 @@ func ZZ_C01_Reopen() {
 		}
 		z.checkInvD("C01.preload")
 	}
-	rb := z.buf(total)
-	rn, rerr := d.ReadAt(rb, 0)
-	zzAssert(rerr == nil && rn == len(rb), "C01.read-result-after-reopen")
-	for x := 0; x < total; x++ {
-		zzAssert(z.unit(rb, x) == img[x], "C01.read-after-reopen")
+	// every (offset, length) in turn, each into a buffer that already holds other bytes:
+	// ReadAt has to produce every byte of the range, zeros included
+	for off := 0; off < total; off++ {
+		for n := 1; n <= total-off; n++ {
+			rb := z.buf(n)
+			for i := 0; i < n; i++ {
+				z.setUnit(rb, i, 0xEE)
+			}
+			rn, rerr := d.ReadAt(rb, int64(off)*zzScale(U))
+			zzAssert(rerr == nil && rn == len(rb), "C01.read-result-after-reopen")
+			for i := 0; i < n; i++ {
+				zzAssert(z.unit(rb, i) == img[off+i], "C01.read-after-reopen")
+			}
+		}
 	}
 	zzSettle()
 	for s := 1; s < F; s++ {
